@@ -71,7 +71,7 @@ PROPS = {
     },
     "C10": {
         "module": "Cdecao.Props.C10",
-        "extra_modules": ["Cdecao.Props.Main", "Cdecao.Props.PanicTie", "Cdecao.Props.MainE2E"],
+        "extra_modules": ["Cdecao.Props.Main", "Cdecao.Props.PanicTie", "Cdecao.Props.MainE2E", "Cdecao.Props.C10U32"],
         "theorems": ["Props.main_simple_total", "Props.main_cde_total", "Props.panic_sites_tie", "Props.C10_node", "Props.C10_tree", "Props.C10_cli", "Props.C10_cde", "Props.C10_main", "Props.C10_main_threads", "Props.main_skeleton_tie"],
         "streams": ["node", "node-rooms", "solve", "cli-simple", "cli-main", "node-exhaustive"],
     },
@@ -161,7 +161,7 @@ LEVELS = {
             "note": _NODE + " InstOK2 adds: no instructor listed twice (both readers guarantee it), penalties <= 50000."},
     "C09": {"text": "Theorems Props.C09 / C09_none_iff: for arbitrary node solvers with Bounded trees, every T >= 1 and schedule, the finished engine holds a solution of maximal score, or none iff the tree has no feasible node. Real runs on random synthetic trees under seeded schedules are replayed through the model and compared with the max leaf.",
             "note": _ENG},
-    "C10": {"text": "Theorems Props.C10_node / C10_tree: no panic site of run_bab_node (11 sites + the Hungarian routine's own) is reachable at any node of the search tree of a well-formed instance with num_min <= num_max. Program level: Props.C10_main (a run that reaches the solver ends, without output faults, with status 0 and a complete file or status 1 and no file touched), C10_main_threads (never zero workers). main.rs as a whole is modelled (Model/Main.lean: MainM.front = every stage before the solver with its exit status, MainM.run = the program as a function of options, environment, solver verdict and output faults); the stage order of main.rs is re-extracted from the source on every run (Props.main_skeleton_tie) and the stream cli-main runs option/environment/document combinations with zero to three things wrong at once through the real binary against MainM.front (exit status, or the participant/course counts logged before the solver).",
+    "C10": {"text": "Theorems Props.C10_node / C10_tree: no panic site of run_bab_node (11 sites + the Hungarian routine's own) is reachable at any node of the search tree of a well-formed instance with num_min <= num_max. Score arithmetic (Props/C10U32.lean): C10_scores_fit_u32 — for a valid instance with (places + participants)·50000 < 2^32 every score the node solver returns, every queue entry and the incumbent score of every reachable engine configuration is below 2^32 (the u32 `Score` cannot overflow), C10_quality_fits(_valid) — the theoretical maximum and every assignment score are at most (participants with choices)·50000, so the usize subtraction of the quality figures cannot underflow. Program level: Props.C10_main (a run that reaches the solver ends, without output faults, with status 0 and a complete file or status 1 and no file touched), C10_main_threads (never zero workers). main.rs as a whole is modelled (Model/Main.lean: MainM.front = every stage before the solver with its exit status, MainM.run = the program as a function of options, environment, solver verdict and output faults); the stage order of main.rs is re-extracted from the source on every run (Props.main_skeleton_tie) and the stream cli-main runs option/environment/document combinations with zero to three things wrong at once through the real binary against MainM.front (exit status, or the participant/course counts logged before the solver).",
             "note": _NODE + " f32 behaviour is a parameter (after fix F9 totality needs no float property)."},
     "C11": {"text": "Props.C11_end_to_end (reader ∘ solver ∘ writer: the clauses below hold for the file written from the incumbent of every reachable configuration of the search on every accepted export, all room lists, thread counts and schedules). Props.C11_consistent (assembled): ignored pre-assigned registrations are never named in the file; a course with ignored people is fixed, treated as taking place and written active; original minimum met and original maximum respected counting both groups (ignoredCount defined on the EXPORT); with --ignore-cancelled no cancelled course of the track appears in the file at all. Arithmetic and writer theorems about adapt_course_for_invisible_participants (places reserved: max counting pre-assigned, min counting both groups, course fixed, fixed course written active) + exact correspondence of the reader (incl. invisible counts, hidden names, external quality data) on generated exports with arbitrary existing assignments, all four option combinations, and the end-to-end consistency oracle with both-groups counts through the real binary.",
             "note": "Model CD.read/CD.adapt; the room offset change is applied natively (f32) by the driver. Room fitting with both groups rests on the offset correspondence (f32) and C06."},
